@@ -1137,11 +1137,11 @@ def dir_table(ctx, rule):
         if kind.startswith('input'):
             name, attrs['type'] = 'input', kind.split(':')[1]
             if text:
-                attrs['value'] = ''.join(text)
+                attrs['value'] = ''.join(t for t in text if isinstance(t, str))
         if dirv is not None:
             attrs['dir'] = dirv
         el = el_obj(name, parent=par, attrs=attrs)
-        setkids(el, [] if kind.startswith('input') else list(text))
+        setkids(el, [] if kind.startswith('input') else [TextNode(t[1], t[0][1:]) if isinstance(t, tuple) else TextNode(t) for t in text])
         setkids(par, [el])
         setkids(root, [par])
         return root, el
@@ -1157,7 +1157,7 @@ def dir_table(ctx, rule):
         parent_dir = pdir or 'ltr'          # the parent is a div below the root: its own attribute or the root's default
         if d in ('ltr', 'rtl'):
             return d
-        chars = ''.join(text)
+        chars = ''.join(t for t in text if isinstance(t, str))
         texty = kind == 'textarea' or kind in ('input:text', 'input:tel')
         if d == 'auto' and texty:
             s_ = strong(chars)
@@ -1172,7 +1172,7 @@ def dir_table(ctx, rule):
         return parent_dir
     kinds = ('div', 'bdi', 'textarea', 'input:text', 'input:tel', 'input:checkbox')
     dirs = (None, 'ltr', 'RTL', 'auto', 'bogus')
-    texts = ((), ('N1',), ('N', 'L'), ('1R', 'L'), ('NA',))
+    texts = ((), ('N1',), ('N', 'L'), ('1R', 'L'), ('NA',), (('#comment', 'R'), 'NL'), (('#cdata', 'A'), ('#pi', 'R'), 'N'))
     bad = None
     for kind, dirv, text, pdir in itertools.product(kinds, dirs, texts, (None, 'rtl', 'ltr')):
         text = tuple(text)
@@ -1180,8 +1180,7 @@ def dir_table(ctx, rule):
         me = matcher_obj(is_xml=False, is_html=True, root=root)
         stubs = {'unicodedata.bidirectional': lambda c: bidi[c], 'util.lower': strict_lower,
                  'css_match.CSSMatch.supports_namespaces': lambda: False,
-                 'css_match._DocumentNav.is_navigable_string': lambda n: isinstance(n, str),
-                 'css_match._DocumentNav.is_special_string': lambda n: False}
+                 }
         got = {}
         for name, flag in (('ltr', LTR), ('rtl', RTL)):
             try:
@@ -2118,3 +2117,44 @@ def pattern_context_table(ctx, rule):
                        f'get_pattern_context({pat!r}, {index}) returns {res!r}; expected line {exp_line}, column {exp_col} and a context with '
                        f'the caret under that column{" (" + why + ")" if why else ""}: every offset 0..len(pattern), including the very end '
                        f'of a multi-line pattern, lies on a line')
+
+
+
+def empty_table(ctx, rule):
+    """match_empty over child lists of every node kind: :empty holds exactly when there is no element child and no content
+    string with a character outside CSS white space (comments, CDATA, PIs, declarations and doctypes are not content)."""
+    fnq = 'css_match.CSSMatch.match_empty'
+    mod, fn = ctx.src.func(fnq)
+    cases = {
+        'no children': ([], True), 'CSS white space only': ([' \t\n\r\f'], True), 'text': (['x'], False), 'white space then text': (['  ', 'x'], False),
+        'a comment with text': ([('#comment', 'x')], True), 'CDATA with text': ([('#cdata', 'x')], True),
+        'a processing instruction': ([('#pi', 'x')], True), 'doctype and declaration': ([('#doctype', 'x'), ('#declaration', 'y')], True),
+        'an element': ([('b', {}, [])], False), 'comment then element': ([('#comment', 'c'), ('b', {}, [])], False),
+        'no-break space (not CSS white space)': (['\u00a0'], False), 'vertical tab': (['\x0b'], False),
+        'comment, white space, comment': ([('#comment', 'a'), ' ', ('#comment', 'b')], True),
+    }
+    bad = None
+    for what, (kids, exp) in cases.items():
+        doc, order, L = build_tree([('div', {'_label': 'root'}, kids)])
+        me = real_matcher(ctx, L['root'])
+
+        def search(rx_obj, text, *a_):
+            # RE_NOT_EMPTY is proved equal to [^ \t\n\r\f] by C19-R5 / C01-R8: answer with that definition
+            return Obj(_name='m') if any(c not in ' \t\n\r\f' for c in text) else None
+        try:
+            got = bool(call_function(ctx, fnq, [L['root']], {}, {'re.Pattern.search': search, 'util.lower': strict_lower,
+                                                                'css_match.CSSMatch.supports_namespaces': lambda: False}, me))
+        except Raised as e:
+            got = f'raises {e.exc_name}'
+        except Unsupported as e:
+            raise AnalysisError(f'match_empty: outside the evaluable fragment: {e}')
+        rule.instance({'children': what, ':empty': got, 'expected': exp}, key=f'empty|{what}')
+        if got != exp and bad is None:
+            bad = (what, got, exp)
+    rule.obligation(bad is None)
+    if bad is not None:
+        what, got, exp = bad
+        rule.violation('css_match.CSSMatch.match_empty table', mod.where(fn),
+                       f'match_empty on an element whose children are "{what}" is {got}, expected {exp}: :empty holds exactly when there '
+                       f'is no element child and no text child with a character outside CSS white space; comments, CDATA sections, '
+                       f'processing instructions, declarations and doctypes are never text')
